@@ -28,10 +28,12 @@ def pattern_predicate_table(m, func, body_or_expr, npos, cx, is_body):
         from ..normalize import unroll_const_loops
         import copy as _copy
         body_or_expr = unroll_const_loops(body_or_expr)        # a loop over the positions with literal bounds
-        if any(x["kind"] == "VarDecl" for x in walk(body_or_expr)):
-            # the rounds declare their own copies of the body's locals: read them in the unrolled body
+        known_ids = {x.get("id") for x in walk(func.body) if x["kind"] == "VarDecl"}
+        if any(x["kind"] == "VarDecl" and x.get("id") not in known_ids for x in walk(body_or_expr)):
+            # the rounds declare their own copies of the body's locals: read them in the unrolled body (next to the
+            # function's own declarations, which the predicate may still refer to)
             f2 = _copy.copy(func)
-            f2.body = body_or_expr
+            f2.body = {"kind": "CompoundStmt", "inner": [func.body, body_or_expr]} if body_or_expr is not func.body else body_or_expr
             cx = FuncCtx(m, f2)
 
     def classify(n):
